@@ -158,6 +158,42 @@ def run(ctx):
     g_ok = any(any(x[0] == "attr" and x[2] == "tasks" for x in subterms(g)) for g in gathers)
     ctx.ob("C18.a", DISCOVER, g_ok, "discover() gathers the protocol's task set", func=DISCOVER, file=d.module.rel, construct="asyncio.gather(*protocol.tasks)",
            fail="discover() does not gather protocol.tasks")
+    # ... and reports nothing but what that one gather returned (entries removed, never added): a second source of devices (a list filled
+    # by done-callbacks, results kept from an earlier run) lets one host appear twice
+    def result_sources(t, depth=0):
+        t = strip(t)
+        if depth > 12 or not isinstance(t, tuple) or not t:
+            return ["?"]
+        if t[0] == "bin" and t[1] == "+":
+            return result_sources(t[2], depth + 1) + result_sources(t[3], depth + 1)
+        if t[0] in ("list", "tuple"):
+            out = []
+            for it in t[1]:
+                out += result_sources(it[1], depth + 1) if it[0] == "starred" else ["?"]
+            return out
+        if t[0] == "comp" and len(t[3]) == 1:
+            return result_sources(t[3][0][1], depth + 1)
+        if t[0] == "call" and t[1][0] == "ext" and t[1][1] in ("list", "tuple", "filter", "sorted") and t[2]:
+            return result_sources(t[2][-1], depth + 1)
+        if t[0] == "await":
+            return result_sources(t[1], depth + 1)
+        if call_is(t, "asyncio.gather"):
+            return ["gather"]
+        if t[0] == "ite":
+            return sorted(set(result_sources(t[2], depth + 1) + result_sources(t[3], depth + 1)))
+        return [show(t)[:60]]
+    for _pc, t_, n_, _st in ds.returns:
+        if n_ is None:
+            continue
+        srcs_ = result_sources(t_)
+        ctx.ob("C18.a", DISCOVER, srcs_ == ["gather"], "the devices returned are exactly the results of that one gather (None entries dropped)", func=DISCOVER,
+               file=d.module.rel, node=n_, detail={"sources": srcs_},
+               fail=f"discover() builds its result from {srcs_}: devices from another source than the one gather can be reported twice")
+    removers = [(f.qual, n) for f in prog.all_functions() if f.module.name == "msmart.discover" for n in ast.walk(f.node)
+                if isinstance(n, ast.Call) and isinstance(n.func, ast.Attribute) and n.func.attr in ("discard", "remove", "pop", "clear")
+                and isinstance(n.func.value, ast.Attribute) and n.func.value.attr == "tasks"]
+    ctx.ob("C18.a", DG, not removers, "no task is taken out of the task set before it was gathered", func=DG, file=file, construct="self.tasks removals",
+           node=removers[0][1] if removers else None, fail="tasks are removed from the task set outside discover(): their devices are lost or reported through another path")
     for _pc, _t, _n, rst in s.returns:
         pass
     tasks_added = any(any(x[0] == "mut" and x[1] == "add" and any(call_is(y, "asyncio.create_task", "asyncio.ensure_future") for y in subterms(x[3][0]))
